@@ -901,12 +901,21 @@ class TransactionEvaluator:
         # Scope stack for loop variables and walrus assignments
         self._scope: Dict[str, Any] = {}
 
-    def evaluate(self, node: ast.AST) -> Any:
+    def evaluate(self, node: ast.AST, lazy: bool = False) -> Any:
         """Evaluate an AST node and return its value."""
         method = f'_eval_{type(node).__name__}'
         if hasattr(self, method):
             try:
-                return getattr(self, method)(node)
+                value = getattr(self, method)(node)
+                # A generator expression is lazy. Only the functions that consume one
+                # directly (sum, any, all, next, min, max: see _eval_argument) get the
+                # generator itself; everywhere else - an element of a comprehension, an
+                # operand of % or +, the value of :=, the whole expression - its values are
+                # what is meant, not a generator object (whose str() would end up in tags,
+                # fields and reports).
+                if isinstance(value, types.GeneratorType) and not lazy:
+                    value = list(value)
+                return value
             except ExpressionError:
                 raise
             except Exception as e:
@@ -916,13 +925,13 @@ class TransactionEvaluator:
                 raise ExpressionError(f"Cannot evaluate expression: {type(e).__name__}: {e}")
         raise ExpressionError(f"Cannot evaluate node type: {type(node).__name__}")
 
+    def _eval_argument(self, node: ast.AST) -> Any:
+        """The argument of a function that consumes an iterable: a generator expression
+        written there stays lazy (any() and next() stop early)."""
+        return self.evaluate(node, lazy=isinstance(node, ast.GeneratorExp))
+
     def _eval_Expression(self, node: ast.Expression) -> Any:
-        value = self.evaluate(node.body)
-        # A bare generator expression is lazy: materialize it so that callers (tags,
-        # fields, let bindings, transforms) receive its values, not a generator object.
-        if isinstance(value, types.GeneratorType):
-            value = list(value)
-        return value
+        return self.evaluate(node.body)
 
     def _eval_Constant(self, node: ast.Constant) -> Any:
         return node.value
@@ -1232,14 +1241,14 @@ class TransactionEvaluator:
         if func_name == 'sum':
             if len(node.args) < 1 or len(node.args) > 2:
                 raise ExpressionError("sum() requires 1 or 2 arguments")
-            iterable = self.evaluate(node.args[0])
+            iterable = self._eval_argument(node.args[0])
             start = self.evaluate(node.args[1]) if len(node.args) == 2 else 0
             return sum(iterable, start)
 
         if func_name == 'any':
             if len(node.args) != 1:
                 raise ExpressionError("any() requires exactly 1 argument")
-            iterable = self.evaluate(node.args[0])
+            iterable = self._eval_argument(node.args[0])
             try:
                 return any(iterable)
             finally:
@@ -1248,7 +1257,7 @@ class TransactionEvaluator:
         if func_name == 'all':
             if len(node.args) != 1:
                 raise ExpressionError("all() requires exactly 1 argument")
-            iterable = self.evaluate(node.args[0])
+            iterable = self._eval_argument(node.args[0])
             try:
                 return all(iterable)
             finally:
@@ -1257,7 +1266,7 @@ class TransactionEvaluator:
         if func_name == 'next':
             if len(node.args) < 1 or len(node.args) > 2:
                 raise ExpressionError("next() requires 1 or 2 arguments")
-            iterator = self.evaluate(node.args[0])
+            iterator = self._eval_argument(node.args[0])
             try:
                 if len(node.args) == 2:
                     default = self.evaluate(node.args[1])
@@ -1268,12 +1277,12 @@ class TransactionEvaluator:
 
         if func_name == 'min':
             if len(node.args) == 1:
-                return min(self.evaluate(node.args[0]))
+                return min(self._eval_argument(node.args[0]))
             return min(self.evaluate(arg) for arg in node.args)
 
         if func_name == 'max':
             if len(node.args) == 1:
-                return max(self.evaluate(node.args[0]))
+                return max(self._eval_argument(node.args[0]))
             return max(self.evaluate(arg) for arg in node.args)
 
         func = self.ctx.get_function(func_name)
